@@ -54,13 +54,16 @@ def handleCum (kv : KV) (s : Stream) (kind : SkipKind) : String :=
     | [a, b] => (k, Driver.C11.canonImpl a, Driver.C11.canonImpl b)
     | _ => (k, v, "-")
   let rNone := ((parsed.find? (·.1 == "none")).map (·.2.1)).getD "?"
+  -- the input is refused before the until-EOF mdat is ever reached (the same error whatever the option says): the
+  -- option, which only rewrites that box's header, is then inert
+  let inert := rNone.startsWith "err" && parsed.all (fun (_, withCfg, _) => withCfg == rNone)
   let bad := parsed.find? fun (k, withCfg, rewritten) =>
     if withCfg == "panic" then true
     else match k.toNat?, eof with
       | none, _ => false
       | some _, none => withCfg != rNone                       -- no until-EOF mdat: the option is inert
       | some t, some _ =>
-        if t < 8 then withCfg != "err:parse:InvalidInput"      -- a size below the header length
+        if t < 8 then withCfg != "err:parse:InvalidInput" && !inert   -- a size below the header length
         else withCfg != rewritten                              -- as if the box had declared that 32-bit size
   match bad with
   | some (k, a, b) => s!"SPEC {id} which=cumulative-size-not-equivalent-to-declared-size sig=C14:cum t={k} with-config={a.take 70} rewritten={b.take 70} none={rNone.take 40}"
